@@ -164,6 +164,13 @@ def call_text(m, dim=1):
 
 
 # ------------------------------------------------------------------------------------------------ running jobs
+def with_budget(j):
+    """every integrate call runs under the evaluation budget: the integrand panics once it has been called that often"""
+    if j.get("op") in ("int1", "int2") and "eval_budget" not in j:
+        j = dict(j, eval_budget=EVAL_BUDGET[1 if j["op"] == "int1" else 2])
+    return {k: v for k, v in j.items() if v is not None}
+
+
 def run_jobs(ctx, binp, jobs, nproc=None):
     """returns id -> observation.  Jobs are spread over several harness processes; a process that reports a timeout
     is restarted on the jobs after the one that timed out.  Jobs carrying `threads` run in a process whose rayon pool
@@ -188,7 +195,7 @@ def run_jobs(ctx, binp, jobs, nproc=None):
             if ntimeouts >= 4:
                 break          # circuit breaker: this code path hangs on everything; the timeouts seen so far are reported
             lim = sum(j.get("limit_ms", 20000) for j in remaining) / 1000.0 + 30
-            text = "\n".join(json.dumps({k: v for k, v in j.items() if k != "heavy"}) for j in remaining) + "\n"
+            text = "\n".join(json.dumps(with_budget({k: v for k, v in j.items() if k != "heavy"})) for j in remaining) + "\n"
             env = dict(os.environ)
             if remaining[0].get("threads"):
                 env["RAYON_NUM_THREADS"] = str(remaining[0]["threads"])
@@ -262,6 +269,11 @@ class Cases:
 
     def int1(self, m, a, b, f, limit=LIMIT_1D_MS, trace=False, via=None, heavy=False, threads=None):
         j = {"id": self.jid("i"), "op": "int1", "method": m, "a": hx(a), "b": hx(b), "f": f.job(), "limit_ms": limit}
+        try:
+            ex = f.exact(a, b)
+            j["I_abs"] = math.hypot(float(ex[0]), float(ex[1]))       # |integral|: classifies Gauss-Kronrod panics (harness ignores it)
+        except (OverflowError, ZeroDivisionError):
+            pass
         if threads:
             j["threads"] = threads
         if trace:
@@ -337,7 +349,7 @@ def build_cases(ctx, rng, deep=False, counts=None):
     C.checks.append({"kind": "accept", "id": "acc"})
     # divs = 0 is outside the property's range (4..400); recorded as a note only: `0 + 0 % 2 - 2` wraps in release builds
     C.add({"id": "divs0", "op": "int1", "method": {"m": "simpson", "divs": 0}, "a": hx(0.0), "b": hx(1.0),
-           "f": Poly([(1.0, 0.0)]).job(), "limit_ms": 1000, "heavy": True})
+           "f": Poly([(1.0, 0.0)]).job(), "limit_ms": 1000, "heavy": True, "eval_budget": None})
     C.checks.append({"kind": "divs0", "id": "divs0"})
     # ---- B: Simpson rule extraction
     divs_list = sample_divs(rng, ctx.tier, deep) if quick else list(range(5, 402))
@@ -477,6 +489,25 @@ def build_cases(ctx, rng, deep=False, counts=None):
         a, b = C.interval()
         i1 = C.int1(m, a, b, C.expi())
         C.checks.append({"kind": "eval_bound", "id": i1, "method": m, "dim": 1})
+    # Gauss-Kronrod inside the regime that never panics on the unchanged tree (small integrals, max_depth >= 200): accuracy,
+    # reversal and linearity are checked on these whatever happens to the known-panic regime
+    for depth in ([200, 1000] if quick else [200, 200, 1000, 1000]):
+        for t in ([1e-6] if quick else [1e-3, 1e-9]):
+            m = {"m": "gk", "tol": hx(t), "depth": depth}
+            a = rng.uniform(-1.0, 0.5)
+            b = a + rng.uniform(0.5, 1.0)
+            p, g = C.cpoly(rng.randint(2, 6), mag=0.05), C.cpoly(rng.randint(2, 6), mag=0.05)
+            e = Expi(rng.uniform(1.0, 8.0), 0.1 * cmath.exp(1j * rng.uniform(0, 2 * math.pi)))
+            for f in (p, e):
+                tol, clause = method_accuracy(m, f, a, b)
+                i1, i2 = C.int1(m, a, b, f), C.int1(m, b, a, f)
+                C.checks.append({"kind": "accuracy1", "id": i1, "method": m, "a": a, "b": b, "f": f, "tol": tol, "clause": clause, "gk_ok_regime": True})
+                C.checks.append({"kind": "reverse1", "ab": i1, "ba": i2, "method": m, "a": a, "b": b, "f": f, "tol": tol})
+            al, be = complex(rng.uniform(-1, 1), rng.uniform(-1, 1)), complex(rng.uniform(-1, 1), rng.uniform(-1, 1))
+            h = p.lin(al, g, be)
+            tp, tg, th = (method_accuracy(m, x, a, b)[0] for x in (p, g, h))
+            C.checks.append({"kind": "linear1", "ids": [C.int1(m, a, b, p), C.int1(m, a, b, g), C.int1(m, a, b, h)], "method": m, "a": a, "b": b,
+                             "p": p, "g": g, "alpha": al, "beta": be, "tol": abs(al) * tp + abs(be) * tg + th})
     # the direct entry points agree with the Integrator dispatch
     for d in (50, 51):
         a, b = C.interval()
@@ -621,6 +652,8 @@ def build_cases(ctx, rng, deep=False, counts=None):
         m = {"m": "gk", "tol": hx(1e-6), "depth": 1000}
         j = {"id": C.jid("t"), "op": "int2", "method": m, "a": hx(a), "b": hx(b), "c": hx(c), "d": hx(d),
              "f": {"t": "sep", "p": p.job(), "q": q.job()}, "limit_ms": lim, "heavy": True}
+        e2 = cmulq(p.exact(a, b), q.exact(c, d))
+        j["I_abs"] = math.hypot(float(e2[0]), float(e2[1]))
         C.add(j)
         ix, iy = C.int1(m, a, b, p), C.int1(m, c, d, q)
         C.checks.append({"kind": "separable2", "id": j["id"], "ix": ix, "iy": iy, "method": m, "rect": [a, b, c, d], "p": p, "q": q,
@@ -662,16 +695,25 @@ def job_of(C, jid):
 
 def panic_cause(msg):
     """which failure the panic message names (known finding F5d-panic is the unwrap of quad-rs's MaxIterExceeded)"""
-    if "MaxIterExceeded" in msg:
+    if re.search(r"TrellisError\s*\{\s*cause:\s*MaxIterExceeded\b", msg):
         return "max_iter_exceeded"
     if "Steps too low" in msg or "assertion failed" in msg:
         return "assert"
     return "other"
 
 
-def time_cause(m, dim):
-    """known finding F5d-time is the nested (2-D) use of quad-rs; anything else is reported"""
-    return "nested_adaptive_2d" if (m["m"] == "gk" and dim == 2) else "other"
+def gk_regime(m, i_abs):
+    """measured on the unchanged tree (quad-rs converges only when the ABSOLUTE error estimate drops below f64::EPSILON):
+    max_depth <= 30 always panics; max_depth >= 200 never panics for |I| < 0.25 (first panic observed at 0.51); max_depth >= 1000 never
+    panics for |I| < 8 (first panic at 14).  A panic inside the `small_integral` regime is NOT the known finding."""
+    depth = m.get("depth", 0)
+    if i_abs is not None and ((depth >= 1000 and i_abs < 8.0) or (depth >= 200 and i_abs < 0.25)):
+        return "small_integral"
+    return "iteration_budget"
+
+
+def tol_class(m):
+    return ("%.0e" % fl(m["tol"])) if "tol" in m else None
 
 
 def accuracy_cause(m, f, a, b, o):
@@ -700,25 +742,29 @@ def outcome_problem(ctx, C, o, jid, m, dim, what_input):
         ctx.violation("S5", f"{call_text(m, dim)} crashed the process on {what_input}", dict(msig(m), kind="crash", dim=dim),
                       {"job": job_of(C, jid), "observation": o})
         return False
+    job = job_of(C, jid) or {}
     if o.get("kind") == "timeout":
-        ctx.violation("S5", f"{call_text(m, dim)} did not return within {o['limit_ms'] / 1000:.0f} s on a smooth integrand ({what_input}); "
-                            f"{o.get('evals')} integrand evaluations so far",
-                      dict(msig(m), kind="time", dim=dim, cause=time_cause(m, dim)), {"job": job_of(C, jid), "observation": o})
+        # (timed-out jobs have already been re-run alone with twice the limit: see run())
+        ctx.violation("S5", f"{call_text(m, dim)} did not return within {o['limit_ms'] / 1000:.0f} s on a smooth integrand ({what_input}), "
+                            f"also when re-run alone; {o.get('evals')} integrand evaluations so far",
+                      dict(msig(m), kind="time", dim=dim, cause="wall_clock"), {"job": job, "observation": o})
         return False
     if o.get("kind") == "job_panic" or not o.get("ok", False):
-        msg = (o.get("panic") or "")[:160]
-        ctx.violation("S5", f"{call_text(m, dim)} panics on {what_input}: {msg}",
-                      dict(msig(m), kind="panic", dim=dim, cause=panic_cause(o.get("panic") or "")),
-                      {"job": job_of(C, jid), "observation": o})
+        msg = (o.get("panic") or "")
+        if "evaluation budget exceeded" in msg:
+            ctx.violation("S5", f"{call_text(m, dim)} called the integrand more than {EVAL_BUDGET[dim]} times on a smooth integrand ({what_input}): "
+                                f"not bounded work", dict(msig(m), kind="time", dim=dim, cause="evaluation_budget_exceeded"),
+                          {"job": job, "observation": o})
+            return False
+        sg = dict(msig(m), kind="panic", dim=dim, cause=panic_cause(msg))
+        if m["m"] == "gk":
+            sg.update(depth=m.get("depth"), tol=tol_class(m), regime=gk_regime(m, job.get("I_abs")))
+        ctx.violation("S5", f"{call_text(m, dim)} panics on {what_input}: {msg[:160]}", sg, {"job": job, "observation": o})
         return False
     if not finite(o):
         ctx.violation("S5", f"{call_text(m, dim)} returns a non-finite value on {what_input}", dict(msig(m), kind="nonfinite", dim=dim),
                       {"job": job_of(C, jid), "observation": o})
         return False
-    if o.get("evals", 0) > EVAL_BUDGET[dim]:
-        ctx.violation("S5", f"{call_text(m, dim)} needs {o['evals']} integrand evaluations ({o['ms'] / 1000:.1f} s) on a smooth integrand ({what_input}); "
-                            f"budget {EVAL_BUDGET[dim]}", dict(msig(m), kind="time", dim=dim, cause=time_cause(m, dim)),
-                      {"job": job_of(C, jid), "observation": o})
     return True
 
 
@@ -775,6 +821,8 @@ def oracle(ctx, C, obs):
                 continue
             exact = f.exact(a, b)
             err = off_by(m, fval_of(o), exact)
+            if m["m"] == "gk":
+                ctx.count("gk:returned_a_value")
             ctx.sample({"call": call_text(m), "interval": [a, b], "integrand": f.desc(), "result": [fl(o["val"][0]), fl(o["val"][1])],
                         "error": err, "allowed": ck["tol"], "evals": o["evals"]})
             if err > ck["tol"]:
@@ -1241,6 +1289,18 @@ def build_findings(ctx):
             ctx.note(f"finding {fid}: refuted lemma {f[:-1]} no longer compiles on this tree — the defect no longer reproduces on the model")
 
 
+def retry_timeouts(ctx, binp, C, obs):
+    """a wall-clock time-out on a loaded machine is not a verdict: every timed-out job is run again alone, with twice the limit,
+    before the oracle sees it (work that is really unbounded is caught machine-independently by the evaluation budget)"""
+    again = [dict(j, limit_ms=2 * j.get("limit_ms", 20000), heavy=True) for j in C.jobs
+             if obs.get(j["id"], {}).get("kind") == "timeout" and j["id"] != "divs0"]
+    if again:
+        ctx.log(f"   re-running {len(again)} timed-out job(s) alone")
+        obs = dict(obs)
+        obs.update(run_jobs(ctx, binp, again))
+    return obs
+
+
 def replay(ctx, binp):
     """re-run the recorded input(s) through the harness and re-evaluate the recorded clause"""
     rec = json.load(open(ctx.replay))
@@ -1310,6 +1370,7 @@ def run(ctx):
                       {"call": f"Integrator::Simpson {{ divs: {off[0][0]} }}.integrate(|x| 0, 0., 1.)", "observed_divisions": off[:20]})
     C = build_cases(ctx, rng, counts=counts)
     obs = run_jobs(ctx, binp, C.jobs)
+    obs = retry_timeouts(ctx, binp, C, obs)
     try:
         os.makedirs(os.path.join(COQ, "Cases", "C12"), exist_ok=True)
         with open(os.path.join(COQ, "Cases", "C12_obs.json"), "w") as fo:
@@ -1317,6 +1378,12 @@ def run(ctx):
     except OSError:
         pass
     oracle(ctx, C, obs)
+    want_gk = sum(1 for c in C.checks if c.get("gk_ok_regime"))
+    got_gk = ctx.cov["histogram"].get("gk:returned_a_value", 0)
+    if got_gk < want_gk:
+        ctx.violation("S5", f"Gauss-Kronrod returned a value on {got_gk} calls only; {want_gk} calls lie in the regime (max_depth >= 200, small integral) "
+                            f"where the unchanged tree never panics — the accuracy / reversal / linearity clauses are no longer exercised for this method",
+                      {"kind": "gk_coverage", "method": "GaussKonrod"}, {"returned": got_gk, "expected_at_least": want_gk}, found_input=False)
     nbad = 0
     if cases_ok:
         gl_tables, nbad = correspondence(ctx, C, obs)
@@ -1345,7 +1412,7 @@ def run(ctx):
                         need.add(c[key])
                 need.update(c.get("ids", []))
             C2.jobs = [j for j in C2.jobs if j["id"] in need and not j.get("heavy")]
-            obs2 = run_jobs(ctx, binp, C2.jobs)
+            obs2 = retry_timeouts(ctx, binp, C2, run_jobs(ctx, binp, C2.jobs))
             oracle(ctx, C2, obs2)
             if any(v["found_input"] and not baseline(v) for v in ctx.violations):
                 break
